@@ -184,6 +184,8 @@ def run_schedule(impl, actors_steps, strategy, line=False, dims=None):
                     return False
             ok = sess.loop.run_until_complete(main())
         res["watchdog"] = not ok
+        res["host_packets"] = len(sim.host_log)
+        res["framing_error"] = str(sim.framing_error) if sim.framing_error is not None else None
         # close() on the main thread: its lock order is recorded too
         if not s.deadlock and ok:
             sched.ManagedLock.sched = None
